@@ -43,6 +43,28 @@ def random_classes(s, cfg, rnd, tr):
             out.append(ms)
         elif s == "CGKO06.SSE1":
             out.append([compositions(rnd, rnd.randint(1, 14), rnd.randint(1, 4)) for _ in range(5)] + [[1], [15]])
+        elif s in ("CJJ14.Pi2Lev", "CJJ14.PiPtr"):
+            # classes that MIX case kinds (small / medium / large lists) at equal pi_S: sample profiles, group by pi_S
+            # (computed here only to form candidate groups - Trace_Shape recomputes it and rejects a wrong grouping)
+            import math
+            B, b = cfg["param_B"], cfg["param_b"]
+            Bp, bp = cfg.get("param_B_prime", 1), cfg.get("param_b_prime", 1)
+            top = (B * Bp * bp - 1) if s == "CJJ14.Pi2Lev" else 4 * B * b
+
+            def pi(p):
+                if s == "CJJ14.PiPtr":
+                    return (sum(math.ceil(n / B) for n in p), sum(math.ceil(math.ceil(n / B) / b) for n in p))
+                return (len(p), 1 + sum((math.ceil(n / B) if n > b else 0) + (math.ceil(n / (B * Bp)) if n > bp * B else 0) for n in p))
+            groups = {}
+            for _ in range(4000):
+                p = [rnd.randint(1, max(1, min(top, 40))) for _ in range(rnd.randint(1, 6))]
+                groups.setdefault(pi(p), []).append(p)
+            mixed = [g for g in groups.values() if len({tuple(sorted(x)) for x in g}) >= 3]
+            rnd.shuffle(mixed)
+            for g in mixed[:6]:
+                uniq = list({tuple(sorted(x)): x for x in g}.values())
+                out.append(uniq[:6])
+            break
         elif s == "CJJ14.PiPack":
             B = cfg["param_B"]
             blocks = rnd.randint(4, 10)
